@@ -64,6 +64,21 @@ def clock(filetime: int, sub_ns: int = 0):
         yield
 
 
+@contextlib.contextmanager
+def ticking_clock(filetime: int, step_ticks: int = 1):
+    """A clock that ADVANCES by step_ticks (100 ns units) on every read, starting at filetime: what a real clock does between two
+    reads inside one call. Yields the list of values handed out (FILETIME)."""
+    reads: t.List[int] = []
+
+    def now_ns() -> int:
+        ft = filetime + len(reads) * step_ticks
+        reads.append(ft)
+        return (ft - EPOCH_FILETIME) * 100
+
+    with patched(time, "time_ns", now_ns), patched(time, "time", lambda: now_ns() / 1e9):
+        yield reads
+
+
 class Drbg:
     """SHA-256 counter DRBG for data values outside the alphabets (seeded by VERIF_SEED)."""
 
